@@ -194,9 +194,10 @@ def ngram_cases(tier, props, grid=None):
 
 
 def add_cases(tier):
-    grid = [((2,), (2,), (2,)), ((1, 1), (2,), (1,))] if tier == "quick" else \
+    grid = [((2,), (1,), (2,)), ((1, 1), (2,), (1,))] if tier == "quick" else \
         [((2,), (2,), (2,)), ((1, 1), (2,), (1,)), ((3,), (2,), (2,)), ((2,), (1, 2), (0, 2)), ((2, 1), (2, 1), (1,))]
     return [Case("ngram_add[a=%s,b=%s,tr=%s]" % ("+".join(map(str, a)), "+".join(map(str, b)), "+".join(map(str, t))),
                  h_add, dict(a_lens=list(a), b_lens=list(b), tr_lens=list(t)), replay="ngram:replay_add",
-                 bounds={"corpus A": list(a), "corpus B": list(b), "transform": list(t)}, functions=FUNCS)
+                 bounds={"corpus A": list(a), "corpus B": list(b), "transform": list(t)}, functions=FUNCS,
+                 shards=16 if sum(a) + sum(b) + sum(t) >= 6 else 1, shard_depth=10)
             for a, b, t in grid]
